@@ -730,7 +730,11 @@ class LokyBackend(AutoBatchingMixin, ParallelBackendBase):
         self._workers = None
 
         if ensure_ready:
-            self.configure(n_jobs=self.parallel.n_jobs, parallel=self.parallel)
+            self.configure(
+                n_jobs=self.parallel.n_jobs,
+                parallel=self.parallel,
+                **self.parallel._backend_kwargs,
+            )
 
 
 class FallbackToBackend(Exception):
